@@ -531,6 +531,26 @@ def rule_region_edits(ctx: Ctx) -> RuleResult:
     return rr
 
 
+def rule_erase_inclusive(ctx: Ctx) -> RuleResult:
+    """TermCanvas.erase(start, end) takes *inclusive* end coordinates; 'erase up to the cursor' (EL 1, ED 1) includes
+    the cursor cell on a VT100.  The two CSI handlers are siblings: in the same mode they must hand the cursor
+    coordinates to erase() unshifted (only `width - 1` / `height - 1`, the last column / row, carry a `- 1`)."""
+    p = ctx.p
+    rr = RuleResult("SIB", "C15.15", "csi_erase_line / csi_erase_display pass cursor coordinates to erase() unshifted (inclusive ends)", floor=4)
+    for q in ("csi_erase_line", "csi_erase_display"):
+        fi = p.func(f"{VT}.TermCanvas.{q}")
+        for c in fi.own_nodes():
+            if isinstance(c, ast.Call) and isinstance(c.func, ast.Attribute) and c.func.attr == "erase" and len(c.args) == 2:
+                rr.inst(f"{short(fi)}:{norm(c, 50)}", True, {"call": f"{short(fi)}: {norm(c, 60)}"})
+                for b in ast.walk(c):
+                    if isinstance(b, ast.BinOp) and isinstance(b.op, (ast.Add, ast.Sub)) and isinstance(b.right, ast.Constant):
+                        base = ast.unparse(b.left)
+                        if base.endswith(".width") or base.endswith(".height"):
+                            continue
+                        rr.add(finding("SIB", fi, c, f"`{norm(c, 60)}` shifts a cursor coordinate (`{norm(b, 30)}`) before handing it to erase(), whose ends are inclusive: the cursor cell itself is not erased (or one cell too many is)", construct=f"{fi.name}: shifted coordinate {norm(b, 30)}"))
+    return rr
+
+
 def run(ctx: Ctx):
     p = ctx.p
     tc = f"{VT}.TermCanvas"
@@ -553,6 +573,7 @@ def run(ctx: Ctx):
         rule_linefeed_mirror(ctx),
         rule_scroll_margin(ctx),
         rule_region_edits(ctx),
+        rule_erase_inclusive(ctx),
     ]
     return out
 
@@ -561,6 +582,7 @@ from ..mutants import Mut  # noqa: E402
 
 _V = "urwid/vterm.py"
 MUTANTS = [
+    Mut("ed1-stops-before-cursor", "urwid/vterm.py", "TermCanvas.csi_erase_display", "self.erase((0, 0), self.term_cursor)", "self.erase((0, 0), (self.term_cursor[0] - 1, self.term_cursor[1]))", "SIB|vterm.TermCanvas.csi_erase_display"),
     Mut("il-inserts-before-pop", "urwid/vterm.py", "TermCanvas.insert_lines", "            self.term.pop(self.scrollregion_end)\n            self.term.insert(row, self.empty_line())", "            self.term.insert(row, self.empty_line())\n            self.term.pop(self.scrollregion_end)", "ORDER|vterm.TermCanvas.insert_lines"),
     Mut("dl-outside-region", "urwid/vterm.py", "TermCanvas.remove_lines", "        if not self.scrollregion_start <= row <= self.scrollregion_end:\n            # outside the scrolling region: ignored\n            return\n", "", "ORDER|vterm.TermCanvas.remove_lines"),
     Mut("autowrap-scrolls-at-screen-bottom", "urwid/vterm.py", "TermCanvas.push_cursor", "                    if y >= self.scrollregion_end:", "                    if y >= self.height - 1:", "SIB|vterm.TermCanvas.push_cursor"),
